@@ -5,7 +5,7 @@ CONSTANTS
   ByteStrings <- BytesThorough
   NumSeqs <- NumsQuick
   NewObjs <- MCNewObjs
-  MaxDepth = 4
+  MaxDepth = 3
   Starts <- StartsIns2
   Allowed = {"content.sharedStream", "resources.nameCollision"}
   Emit = TRUE
